@@ -204,6 +204,31 @@ def j_c03(sh, a, b):
     return res
 
 
+def js_c03(sh, ctx):
+    """C03 per shard: additionally every generated frame goes through Spec.parse (Lean); a frame the
+    specification reader rejects or reads differently is an inconsistency between the harness's frame
+    generator and Spec.* — a harness error (counted, reported on stderr), never a violation."""
+    out = [j_c03(sh, a, b) for a, b in ctx['split_cases'](sh)]
+    reqs = []
+    for i, op in enumerate(sh['ops']):
+        if op.startswith('NOTE case=frames expect '):
+            reqs.append((op[len('NOTE case=frames expect '):], sh['ops'][i + 1].split()[2]))
+    if reqs:
+        ops = ''.join('SPEC %s\n' % r[1] for r in reqs)
+        p = subprocess.run([ctx['DRIVER']], input=ops, capture_output=True, text=True)
+        bad = 0
+        for (expect, hx), got in zip(reqs, p.stdout.split('\n')):
+            if got != 'spec ' + expect:
+                bad += 1
+                if bad <= 3:
+                    import sys
+                    print('harness: generator/spec mismatch on %s…: spec `%s` generator `%s`' % (hx[:40], got[:300], expect[:300]), file=sys.stderr)
+        if out:
+            out[0].setdefault('hist', [])
+            out[0]['hist'] += ['generator-vs-Spec.parse mismatch'] * bad + ['generator-vs-Spec.parse agree'] * (len(reqs) - bad)
+    return out
+
+
 def j_c07(sh, a, b):
     res = base(sh, a, b, {'RD'})
     contig = None
@@ -255,6 +280,12 @@ def j_c05(sh, a, b):
             g = sh['go'][i]
             if ' hang' in g or 'FAIL elems' in g or g == '<no output>':
                 res['concrete'].append(dict(line=i, what='decoding does not terminate within bounds: ' + g[:200]))
+            elif o == 'RD':
+                # bytes drawn from the stream: the model's count is bounded by the theorems of C05/C06
+                mg, ml = re.findall(r' c=(\d+)', g), re.findall(r' c=(\d+)', sh['lean'][i])
+                if mg and ml and sum(map(int, mg)) > sum(map(int, ml)):
+                    res['concrete'].append(dict(line=i, what='ReadPacket draws %d bytes from the stream where the frame (model) accounts for %d: %s' % (
+                        sum(map(int, mg)), sum(map(int, ml)), g[:120])))
     res['hist'] = case_hist(sh, a, b)
     return res
 
@@ -658,7 +689,7 @@ PROPS = {
              'one case = one in-domain packet built through the API; distinct by (type, set of setters used, boundary lengths hit); non-trivial = has at least the constructor and the round trip ran'),
     'C02': P(js_c02, [('pkt', 1600)], [('pkt', 40000), ('pkt+', 2000)],
              'well-formed in-domain packets; the bytes WriteTo produced are parsed by the independent Spec.parse in Lean and compared with the API values; distinct as C01'),
-    'C03': P(per_case(j_c03), [('frames', 1600)], [('frames', 40000), ('frames+', 1500)],
+    'C03': P(js_c03, [('frames', 1600)], [('frames', 40000), ('frames+', 1500)],
              'specification-style generated valid frames (all 15 types, property permutations, explicit zeros, short forms); distinct by (type, set of non-default fields)'),
     'C04': P(per_case(j_c04), [('malformed', 1500), ('reject', 40), ('cuts', 40)], [('malformed', 60000), ('reject', 1500), ('cuts', 1500), ('short', 2)],
              'arbitrary, truncated and mutated bytes through UnmarshalBinary of every type and through ReadPacket; distinct = distinct input lines'),
